@@ -539,7 +539,7 @@ def run(ctx):
             ctx.check(okc, 'C17.R6', 'KmipServerConfig.%s|_set_enable_tls_client_auth(%s)' % (mname, short(a0)[:40] if a0 is not None else ''), '%s:%s KmipServerConfig.%s' % (CONFIG, c.lineno, mname),
                       'the flag is set from the caller\'s value or from the option in the file; absent means on',
                       '%s stores %s: a configuration that leaves enable_tls_client_auth out runs without the client-authentication extended-key-usage check, although the documented default is on' % (mname, whyc))
-    ctx.count('enable_tls_client_auth_setter_calls', n_set_calls, 2)
+    ctx.analysed['enable_tls_client_auth_setter_calls'] = n_set_calls          # 0 when the setters are reached through a name table (getattr): then no call site can pass a fallback
     # every [auth:*] section of the configuration file reaches the session: a plugin block that is dropped on the way (for whatever
     # reason) is a plugin that never vouches - and with none left the session falls back to the certificate's common name alone
     pas = get_method(cc, 'parse_auth_settings', optional=True)
